@@ -1,32 +1,62 @@
 --------------------------- MODULE Trace_Totality ---------------------------
-(* Trace validation for C12: every recorded Writer.Encode call of the real writers (harness/c12) is judged against *)
-(* the contract of Totality.tla: clause T (no panic, no hang, exactly one of matrix / error), R (certain refusals),  *)
-(* A (certain acceptance) and D (the symbol is a symbol of the symbology that can hold the contents, the matrix is  *)
-(* not smaller than it nor - QR and 1-D - than the request).  Calls are independent: the trace is stateless.        *)
-(* bad entries: <<event index, failing clause 1..5 (9: ill-formed event), expected class 0 any / 1 err / 2 ok>>     *)
-EXTENDS Totality, TraceLib
+(* Trace validation for C06: every recorded call of a real reader / decoder / parser (harness/c06) is judged against  *)
+(* the call-return contract of Totality.tla:                                                                          *)
+(*    clause 1  the call returned (no panic, no hang) with exactly one of result / error                             *)
+(*    clause 2  the error, if any, is of a kind the API class may return (image readers: NotFound / Checksum / Format) *)
+(*    clause 3  parser calls: the outcome class is the one the reference automaton of TotalParse.tla computes for     *)
+(*              these very codewords / bits (Result where the stream is a message, FormatError where it cannot be,    *)
+(*              either where the standards do not say)                                                               *)
+(*    clause 4  ECI block events: every value of the block has the outcome the registry determines                    *)
+(* Calls are independent: the trace is stateless.  An event recorded as skipped (the driver could not build the      *)
+(* input: the writer refused the content) is consumed without judgement.                                             *)
+(* bad entries: <<event index, failing clause (9: ill-formed event), expected class / first offending block index,   *)
+(*               (ECI blocks) the set of distinct <<expected, observed>> outcome codes>>                               *)
+EXTENDS Totality, TotalParse, TraceLib
 VARIABLES l, bad
 vars == <<l, bad>>
 Init == l = 1 /\ bad = <<>>
-IsInt(x) == x \in Int
-IsByteSeq(s) == DOMAIN s = 1..Len(s) /\ \A i \in 1..Len(s) : s[i] \in 0..255
-HintShape(x) == /\ {"k", "t", "i", "s", "sn", "a", "b"} \subseteq DOMAIN x
-                /\ x.k \in HintKeys /\ x.t \in 0..5 /\ IsInt(x.i) /\ IsInt(x.a) /\ IsInt(x.b) /\ IsByteSeq(x.s)
+IsNat(x) == x \in Nat
+IsNatSeq(q, hi) == DOMAIN q = 1..Len(q) /\ \A i \in 1..Len(q) : q[i] \in 0..hi
 WellFormed(e) ==
-  /\ {"wr", "fmt", "cp", "cn", "w", "h", "hints", "sok", "sw", "sh", "mat", "err", "panic", "hang", "ow", "oh"} \subseteq DOMAIN e
-  /\ e.wr \in WriterSet /\ IsInt(e.fmt) /\ IsInt(e.w) /\ IsInt(e.h)
-  /\ IsByteSeq(e.cp) /\ e.cn \in 0..100000 /\ (e.cn > 0 => Len(e.cp) > 0)
-  /\ DOMAIN e.hints = 1..Len(e.hints) /\ \A j \in 1..Len(e.hints) : HintShape(e.hints[j])
-  /\ \A j, k \in 1..Len(e.hints) : j # k => e.hints[j].k # e.hints[k].k
-  /\ \A f \in {"sok", "sw", "sh", "mat", "err", "panic", "hang", "ow", "oh"} : IsInt(e[f])
-ExpCode(c) == CASE Expect(c) = "err" -> 1 [] Expect(c) = "ok" -> 2 [] OTHER -> 0
+  /\ {"op", "api", "a", "b", "h", "res", "err", "panic", "hang", "r", "skip"} \subseteq DOMAIN e
+  /\ e.res \in {0, 1} /\ e.panic \in {0, 1} /\ e.hang \in {0, 1} /\ e.skip \in {0, 1}
+  /\ e.err \in ErrorKinds \cup {""}
+  /\ IsNatSeq(e.a, 1073741824) /\ IsNatSeq(e.h, 1000) /\ IsNatSeq(e.r, 9)
+  /\ IsNatSeq(e.b, IF e.op = "azp" THEN 65535 ELSE 255)
+  /\ (e.op = "qrp" => Len(e.a) = 2 /\ e.a[1] \in 1..40)
+  /\ (e.op = "azp" => Len(e.a) = 1 /\ e.a[1] <= 16 * Len(e.b))
+  /\ (e.op = "eci" => Len(e.a) = 3 /\ e.a[1] \in 1..6 /\ e.a[3] >= 1 /\ e.a[2] + e.a[3] - 1 <= ECIFormRange(e.a[1]))
+\* hint codes 10.. name the character set of the CHARACTER_SET hint; from 20 on: names that are not known to be supported
+ExoticHint(e) == \E i \in 1..Len(e.h) : e.h[i] >= 20 /\ e.h[i] < 30
+AzBitsOf(e) == [i \in 1..e.a[1] |-> (e.b[((i - 1) \div 16) + 1] \div (2^((i - 1) % 16))) % 2]
+Want(e) == CASE e.op = "qrp" -> QRParse(e.b, e.a[1], ExoticHint(e)).cls
+             [] e.op = "dmp" -> DMParse(e.b).cls
+             [] e.op = "azp" -> AZParse(AzBitsOf(e)).cls
+             [] OTHER -> "any"
+ClassCode(w) == CASE w = "ok" -> 2 [] w = "format" -> 1 [] OTHER -> 0
+\* first index of an ECI block whose outcome differs from the expected one (0: none)
+RECURSIVE ECIBad(_,_)
+ECIBad(e, i) == IF i > Len(e.r) THEN 0
+                ELSE IF e.r[i] # ECIExpected(e.a[1], e.a[2] + i - 1) THEN i ELSE ECIBad(e, i + 1)
+\* the distinct <<expected, observed>> pairs of the offending values of a block
+ECIMism(e) == {<<ECIExpected(e.a[1], e.a[2] + i - 1), e.r[i]>> : i \in {j \in 1..Len(e.r) : e.r[j] # ECIExpected(e.a[1], e.a[2] + j - 1)}}
+Judge(e) ==
+  IF ~WellFormed(e) THEN <<9, 0>>
+  ELSE IF e.skip = 1 THEN <<0, 0>>
+  ELSE IF e.op = "eci" THEN
+     (IF e.hang # 0 \/ e.panic # 0 \/ Len(e.r) # e.a[3] THEN <<1, 0>>
+      ELSE LET k == ECIBad(e, 1) IN IF k = 0 THEN <<0, 0>> ELSE <<4, k, ECIMism(e)>>)
+  ELSE LET cls == ApiClass(e.op, e.api) IN
+     IF cls = "unknown" THEN <<9, 1>>
+     ELSE IF cls = "multi" /\ Outcome(e) = "Neither" THEN <<1, 0>>      \* (the driver reports res = 1 for any list returned with a nil error)
+     ELSE IF ~Total(e) THEN <<1, 0>>
+     ELSE IF ~KindOK(e, cls) THEN <<2, 0>>
+     ELSE IF cls = "parser" THEN LET w == Want(e) IN IF ClassOK(e, w) THEN <<0, 0>> ELSE <<3, ClassCode(w)>>
+     ELSE <<0, 0>>
 Next ==
   /\ l <= NEv
   /\ l' = l + 1
-  /\ LET e == Tr[l] IN
-     IF ~WellFormed(e) THEN bad' = Append(bad, <<l, 9, 0>>)
-     ELSE LET v == Verdict(e, e) IN
-          bad' = IF v = 0 THEN bad ELSE Append(bad, <<l, v, ExpCode(e)>>)
+  /\ LET j == Judge(Tr[l]) IN bad' = IF j[1] = 0 THEN bad ELSE Append(bad, <<l>> \o j)
 Spec == Init /\ [][Next]_vars
 Done == l = NEv + 1 => WriteBad(l, bad)
 =============================================================================
